@@ -86,3 +86,46 @@ Definition f11c_witness_stmt : Prop :=
     b_asleep s 1%nat = true /\ sm_q (b_rsem s) = [1%nat] /\ sm_cnt (b_rsem s) = 0 /\ b_dl s 1%nat = MAX64.
 Lemma f11c_witness : f11c_witness_stmt.
 Proof. unfold f11c_witness_stmt. eexists. split; [vm_compute; reflexivity|]. vm_compute. repeat split; reflexivity. Qed.
+
+(* ---- the refutations in the form "there is a reachable state that violates the clause" ------- *)
+(* F10: exactly-once fails on the unbuffered channel as it is *)
+Definition chan_exactly_once_unbuffered_refuted_stmt : Prop :=
+  exists (progs : tid -> list op) (ls : list label) (s : ust) (v : val),
+    urun false (u_init progs 1000) ls = Some s /\
+    u_sent_true s v = true /\ count_val v (u_taken s) = O /\ u_slot s = None /\ mem_val v (u_lost s) = true.
+Lemma chan_exactly_once_unbuffered_refuted : chan_exactly_once_unbuffered_refuted_stmt.
+Proof.
+  exists f10_progs, f10_sched. eexists. exists (2, 0)%nat.
+  split; [vm_compute; reflexivity|]. vm_compute. repeat split; reflexivity.
+Qed.
+
+(* F10, release clause: T3 sleeps for ever (no timer, nobody inside a call) although its value was
+   delivered *)
+Definition chan_release_unbuffered_refuted_stmt : Prop :=
+  exists (progs : tid -> list op) (ls : list label) (s : ust) (t : tid) (v : val) e q,
+    urun false (u_init progs 1000) ls = Some s /\
+    u_pc s t = US_w2 v e q /\ u_asleep s t = true /\ u_dl s t = MAX64 /\ mem_val v (u_taken s) = true /\
+    u_mtx s = None /\ forallb (fun t' => u_done s t' || Nat.eqb t' t) [1;2;3]%nat = true.
+Lemma chan_release_unbuffered_refuted : chan_release_unbuffered_refuted_stmt.
+Proof.
+  exists f10_progs, f10_sched. eexists. exists 3%nat, (3, 0)%nat. do 2 eexists.
+  split; [vm_compute; reflexivity|]. vm_compute. repeat split; reflexivity.
+Qed.
+
+(* F11: release fails on the buffered channel across vCPUs: a thread sleeps on its semaphore with
+   an infinite deadline, count 0, nobody inside a call, while (a) a slot is free, (b) an item is
+   buffered, (c) the channel is closed *)
+Definition chan_release_buffered_refuted_stmt : Prop :=
+  (exists ls s, brun 1 (b_init f11a_progs 1000) ls = Some s /\ b_asleep s 1%nat = true /\ b_dl s 1%nat = MAX64 /\
+                sm_cnt (b_ssem s) = 0 /\ b_q s = [] /\ b_closed s = false /\ b_done s 2%nat = true) /\
+  (exists ls s, brun 1 (b_init f11b_progs 1000) ls = Some s /\ b_asleep s 1%nat = true /\ b_dl s 1%nat = MAX64 /\
+                sm_cnt (b_rsem s) = 0 /\ b_q s = [((2, 0)%nat, true)] /\ b_closed s = false /\ b_done s 2%nat = true) /\
+  (exists ls s, brun 1 (b_init f11c_progs 1000) ls = Some s /\ b_asleep s 1%nat = true /\ b_dl s 1%nat = MAX64 /\
+                sm_cnt (b_rsem s) = 0 /\ b_closed s = true /\ b_done s 2%nat = true).
+Lemma chan_release_buffered_refuted : chan_release_buffered_refuted_stmt.
+Proof.
+  split; [|split].
+  - exists f11a_sched. eexists. split; [vm_compute; reflexivity|]. vm_compute. repeat split; reflexivity.
+  - exists f11b_sched. eexists. split; [vm_compute; reflexivity|]. vm_compute. repeat split; reflexivity.
+  - exists f11c_sched. eexists. split; [vm_compute; reflexivity|]. vm_compute. repeat split; reflexivity.
+Qed.
